@@ -695,7 +695,8 @@ def none_flow(repo, res, rule="S5", only_classes=None):
 
 def run(repo, res, tier):
     res.rules = ["S1 validate-before-store", "S2 independent copy", "S3 documented shape vs configuration", "S4 constraints consulted on accepting paths",
-                 "S5 None-flow", "S6 constructor = setter"]
+                 "S5 None-flow", "S6 constructor = setter", "S8 relational constraints", "S9 rank/type gates",
+                 "S10 a membership-validated setter stores the value it tested"]
     s1_s6(repo, res)
     s3(repo, res)
     s3b(repo, res)
@@ -703,6 +704,10 @@ def run(repo, res, tier):
     s9(repo, res)
     s4(repo, res)
     none_flow(repo, res)
+    import rules_domain
+    n10 = rules_domain.checked_is_stored(repo, res, "S10")
+    res.require(n10 >= 12, f"S10: only {n10} membership-validated setters found (16 confirmed by hand)")
+    res.analysed["S10_setters"] = n10
     extra = {}
     try:
         import origin_rules
